@@ -457,3 +457,34 @@ static void dump_dgram(const char *pfx, dgram_t *d)
         off += 13 + len;
     }
 }
+
+/* After the handshake: one application record each way, each must be
+   delivered exactly once.  Returns 1 when both arrive. */
+static int exchange_check(ep_t *C, ep_t *S, const char *tag)
+{
+    char m1[64], m2[64];
+    int ids[16], n, i;
+
+    snprintf(m1, sizeof m1, "%s c->s", tag);
+    snprintf(m2, sizeof m2, "%s s->c", tag);
+    if (ep_app_send(C, m1) < 0)
+    {
+        return 0;
+    }
+    n = ep_flush(C, ids, 16);
+    for (i = 0; i < n; i++)
+    {
+        ep_deliver(S, &g_all[ids[i]]);
+    }
+    if (ep_app_send(S, m2) < 0)
+    {
+        return 0;
+    }
+    n = ep_flush(S, ids, 16);
+    for (i = 0; i < n; i++)
+    {
+        ep_deliver(C, &g_all[ids[i]]);
+    }
+    return ep_count_app(S, m1) == 1 && ep_count_app(C, m2) == 1 &&
+           !ep_dead(C) && !ep_dead(S);
+}
